@@ -157,14 +157,46 @@ pub struct Violation {
     pub detail: String,
     pub expected: Vec<u8>,
     pub got: Vec<u8>,
+    /// other properties this same divergence also violates (e.g. a batch defect in one build
+    /// variant breaks C04 and, because another variant gets the same call right, C03 as well)
+    pub also: Vec<&'static str>,
 }
 
 impl Violation {
+    pub fn concerns(&self, prop: &str) -> bool {
+        self.prop == prop || self.also.iter().any(|p| *p == prop)
+    }
     pub fn to_json(&self) -> Value {
         json!({"property": self.prop, "class": self.class, "step": self.step, "family": self.family,
-               "variant": self.variant, "detail": self.detail,
+               "variant": self.variant, "detail": self.detail, "also_violates": self.also,
                "expected": hex(&self.expected), "got": hex(&self.got)})
     }
+    pub fn from_json(v: &Value) -> Option<Violation> {
+        fn stat(p: &str) -> &'static str {
+            match p {
+                "C03" => "C03",
+                "C04" => "C04",
+                "C12" => "C12",
+                "C14" => "C14",
+                "C15" => "C15",
+                "C16" => "C16",
+                _ => "C??",
+            }
+        }
+        let s = |k: &str| v.get(k).and_then(|x| x.as_str()).map(|x| x.to_string());
+        Some(Violation {
+            prop: stat(&s("property")?),
+            class: s("class")?,
+            step: v.get("step")?.as_u64()? as usize,
+            family: s("family")?,
+            variant: s("variant")?,
+            detail: s("detail")?,
+            expected: unhex(&s("expected")?)?,
+            got: unhex(&s("got")?)?,
+            also: v.get("also_violates").and_then(|a| a.as_array()).map(|a| a.iter().filter_map(|x| x.as_str()).map(stat).collect()).unwrap_or_default(),
+        })
+    }
+
     /// identity used while shrinking and when matching known findings
     pub fn signature(&self) -> String {
         format!("{}/{}/{}", self.prop, self.class, self.family)
@@ -416,6 +448,27 @@ pub struct World<'a> {
     pub task_order: Digest,
     /// violations attributed to a property other than the one being checked
     pub notes: Vec<Violation>,
+    /// cold-start mode: no reference is computed while the history runs (computing one would
+    /// construct instances and so warm up any process-global state); calls are recorded and
+    /// judged by `settle` after the history has ended
+    pub deferred: bool,
+    pub pending: Vec<Pending>,
+}
+
+/// A call whose judgement is deferred to the end of the run (cold-start mode).
+#[derive(Clone, Debug)]
+pub struct Pending {
+    pub step: usize,
+    pub inst: Inst,
+    pub dir: Dir,
+    pub shape: Shape,
+    pub n: usize,
+    pub in_off: usize,
+    pub out_off: usize,
+    pub data: Vec<u8>,
+    pub mask: bool,
+    /// (variant index, type, output or panic message)
+    pub outs: Vec<(usize, usize, Result<Vec<u8>, String>)>,
 }
 
 impl<'a> World<'a> {
@@ -446,6 +499,8 @@ impl<'a> World<'a> {
             calls: BTreeMap::new(),
             task_order: Digest::default(),
             notes: Vec::new(),
+            deferred: false,
+            pending: Vec::new(),
         }
     }
 
@@ -472,6 +527,7 @@ impl<'a> World<'a> {
             detail,
             expected: expected.to_vec(),
             got: got.to_vec(),
+            also: Vec::new(),
         }
     }
 
@@ -993,6 +1049,9 @@ impl<'a> World<'a> {
             self.stats.f_drop_source_then_call += 1;
         }
 
+        if self.deferred {
+            return self.do_call_deferred(op, &inst, dir, shape, n, in_off, out_off, data, record);
+        }
         // 1. reference per variant: fresh combined cipher, per block, private aligned buffer
         let mut refs: Vec<Result<Vec<u8>, String>> = Vec::with_capacity(inst.reals.len());
         for r in &inst.reals {
@@ -1030,6 +1089,8 @@ impl<'a> World<'a> {
         let base_out: Vec<u8> = base.map(|(_, v)| v.clone()).unwrap_or_default();
 
         // 2. the actual call on every realisation, in the arena
+        let mut good_variants: Vec<usize> = Vec::new();
+        let mut first_bad: Option<(usize, Vec<u8>, Option<String>)> = None;
         for (k, r) in inst.reals.iter().enumerate() {
             let t = self.reg.types[r.ty].clone();
             let f = match t.call(dir) {
@@ -1086,16 +1147,32 @@ impl<'a> World<'a> {
             }
             self.arena.restore_range(out_off, len);
             match (&res, &refs[k]) {
-                (Ok(()), Ok(want)) if &got == want => {}
+                (Ok(()), Ok(want)) if &got == want => {
+                    good_variants.push(r.vidx);
+                }
                 (Err(_), Err(_)) => {
                     self.stats.model_panics += 1;
                 }
                 _ => {
-                    let want = refs[k].clone().unwrap_or_default();
-                    let v = self.diagnose(&inst, r, &t, dir, shape, n, in_off, out_off, data, &want, &got, res.err());
-                    return Err(v);
+                    if first_bad.is_none() {
+                        first_bad = Some((k, got, res.err()));
+                    }
                 }
             }
+        }
+        if let Some((k, got, perr)) = first_bad {
+            let r = &inst.reals[k];
+            let t = self.reg.types[r.ty].clone();
+            let want = refs[k].clone().unwrap_or_default();
+            let mut v = self.diagnose(&inst, r, &t, dir, shape, n, in_off, out_off, data, &want, &got, perr);
+            // the same logical call came out right in another build variant: the result depends on the
+            // configuration as well, whatever the primary cause is
+            if v.prop != "C03" && good_variants.iter().any(|&g| g != r.vidx) {
+                v.also.push("C03");
+                let others: Vec<&str> = good_variants.iter().filter(|&&g| g != r.vidx).map(|&g| self.vset(fam, g).variant).collect();
+                v.detail.push_str(&format!(" | the same call is correct in build variant(s) {}", others.join(",")));
+            }
+            return Err(v);
         }
         // commit the output so the arena evolves with the history
         if len > 0 && !base_out.is_empty() {
@@ -1105,6 +1182,129 @@ impl<'a> World<'a> {
             self.calls.insert(self.step as u32, (op.clone(), base_out.clone()));
         }
         Ok(StepOut { applied: true, out: base_out })
+    }
+
+    #[allow(clippy::too_many_arguments)]
+    fn do_call_deferred(
+        &mut self,
+        op: &Op,
+        inst: &Inst,
+        dir: Dir,
+        shape: Shape,
+        n: usize,
+        in_off: usize,
+        out_off: usize,
+        data: &[u8],
+        record: bool,
+    ) -> Result<StepOut, Violation> {
+        let fam = inst.fam;
+        let len = data.len();
+        let same = in_off == out_off;
+        let mut outs = Vec::new();
+        for r in inst.reals.iter() {
+            let t = self.reg.types[r.ty].clone();
+            let f = match t.call(dir) {
+                Some(f) => f,
+                None => continue,
+            };
+            if t.detect && self.mask {
+                self.stats.f_mask_aes_call += 1;
+                self.stats.r_soft_arm_call += 1;
+            }
+            self.arena.put(in_off, data);
+            let (ip, pi, po) = (self.slots.ptr(r.slot) as *const u8, self.arena.ptr(in_off) as *const u8, self.arena.ptr(out_off));
+            self.stats.cipher_calls += 1;
+            self.stats.blocks_processed += n as u64;
+            let res = guard(|| unsafe { f(ip, shape, pi, po, n) });
+            let stray = self.arena.diff_outside(out_off, len);
+            let got = self.arena.get(out_off, len);
+            if let Some(off) = stray {
+                let in_input = !same && off >= in_off && off < in_off + len;
+                let a = self.arena.get(off, 1);
+                let e = self.arena.shadow[off];
+                self.arena.restore();
+                return Err(self.viol(
+                    "C04",
+                    if in_input { "input-modified" } else { "stray-write" },
+                    fam,
+                    t.variant,
+                    format!("{} {} {} n={} in_off={} out_off={}: byte at arena offset {} changed outside the output range", t.name, dir.name(), shape.name(), n, in_off, out_off, off),
+                    &[e],
+                    &a,
+                ));
+            }
+            self.arena.restore_range(out_off, len);
+            outs.push((r.vidx, r.ty, res.map(|_| got)));
+        }
+        let first: Vec<u8> = outs.iter().find_map(|o| o.2.as_ref().ok().cloned()).unwrap_or_default();
+        if len > 0 && !first.is_empty() {
+            self.arena.put(out_off, &first);
+        }
+        if record {
+            self.calls.insert(self.step as u32, (op.clone(), first.clone()));
+        }
+        self.pending.push(Pending { step: self.step, inst: inst.clone(), dir, shape, n, in_off, out_off, data: data.to_vec(), mask: self.mask, outs });
+        Ok(StepOut { applied: true, out: first })
+    }
+
+    /// Cold-start mode: judge every recorded call now that the history is over.
+    pub fn settle(&mut self) -> Option<Violation> {
+        let pend = std::mem::take(&mut self.pending);
+        for p in pend {
+            let fam = p.inst.fam;
+            cpufeatures::sim::bump_epoch();
+            cpufeatures::sim::set_mask(p.mask);
+            let mut base: Option<(usize, Vec<u8>)> = None;
+            for (vidx, ty, out) in &p.outs {
+                let both = self.vset(fam, *vidx).both;
+                let want = match self.fresh_perblock(both, &p.inst.key, p.dir, &p.data) {
+                    Ok(w) => w,
+                    Err(_) => {
+                        if out.is_err() {
+                            self.stats.model_panics += 1;
+                        }
+                        continue;
+                    }
+                };
+                let t = self.reg.types[*ty].clone();
+                match &base {
+                    None => base = Some((*vidx, want.clone())),
+                    Some((v0, w0)) => {
+                        if *w0 != want {
+                            let (va, vb) = (self.vset(fam, *v0).variant, self.vset(fam, *vidx).variant);
+                            self.step = p.step;
+                            return Some(self.viol("C03", "twin", fam, &format!("{}|{}", va, vb), format!("fresh ciphers of builds {} and {} disagree (mask_aes={}) key={}", va, vb, p.mask, hex(&p.inst.key)), w0, &want));
+                        }
+                    }
+                }
+                let got = out.clone().unwrap_or_default();
+                if out.is_err() || got != want {
+                    let route_s: Vec<String> = p.inst.route.iter().map(|s| s.name()).collect();
+                    self.step = p.step;
+                    let mut v = self.viol(
+                        "C15",
+                        "cold-start",
+                        fam,
+                        t.variant,
+                        format!(
+                            "in a process that had constructed nothing else before this history, {} {} {} n={} (step {}, route=[{}], mask_aes={}, key={}) returned bytes that differ from a fresh instance evaluated after the history{}",
+                            t.name, p.dir.name(), p.shape.name(), p.n, p.step, route_s.join(","), p.mask, hex(&p.inst.key),
+                            out.as_ref().err().map(|e| format!(" PANIC: {}", e)).unwrap_or_default()
+                        ),
+                        &want,
+                        &got,
+                    );
+                    if p.inst.route.len() > 1 || p.inst.role != Role::Both {
+                        v.also.push("C12");
+                    }
+                    if !p.shape.single() || p.in_off != p.out_off {
+                        // cannot tell a placement defect from a history defect after the fact; re-check per block
+                    }
+                    return Some(v);
+                }
+            }
+        }
+        None
     }
 
     /// A realisation returned something other than its variant's fresh combined reference:
